@@ -61,8 +61,16 @@ def run(ck, rng):
         ck.count("variant:" + name)
         ck.count("hostile" if bad_names else "clean")
         parts = impl[i].split("|")
+        if parts[0].split(" ")[0] in ("panic", "crash", "timeout"):
+            ck.violation({"property": ck.pid, "kind": "abnormal", "class": "abnormal|" + parts[0].split(" ")[0], "case": cases[i], "got": impl[i][-300:],
+                          "why": "the call did not return normally: " + parts[0]})
+            continue
         before = parse_snap(parts[0].split(" ")[2])
-        r, _, snap = parts[-1].split(" ")
+        r, _, snap = fs_result(parts[-1])
+        if r in ("panic", "crash", "timeout") or len(parts) < 2:
+            ck.violation({"property": ck.pid, "kind": "abnormal", "class": "abnormal|" + r, "case": cases[i], "got": impl[i][-300:],
+                          "why": "the call did not return normally: " + r})
+            continue
         after = parse_snap(snap)
         ct = clean_target(target)
         inside = lambda p: (ct == b"." and p != b".." and not p.startswith(b"../")) or p == ct or p.startswith(ct + b"/")
